@@ -1,6 +1,8 @@
 package props
 
 import (
+	"github.com/robfig/soy/template"
+	"github.com/robfig/soy/parsepasses"
 	"fmt"
 	"github.com/robfig/soy/data"
 	"os"
@@ -98,19 +100,24 @@ var c19Faults = []struct {
 	name, line string
 	single     bool   // the error must be reported on exactly the fault line
 	crit       string // the shortest prefix of the line after which the fault is certain
+	at         int    // the fault spans several lines: the offending text is on this line of it (0-based)
 }{
-	{"illegal character in a tag", "{$a # 1}", true, "{$a #"},
-	{"stray closing brace in text", "oops } here", true, "oops }"},
-	{"unknown closing command", "{/foo}", true, "{/foo}"},
-	{"if without a condition", "{if}", true, "{if}"},
-	{"unexpected token in expression", "{$a + }", true, "{$a + }"},
-	{"bad number", "{12abc}", true, "{12abc"},
-	{"error inside a quoted attribute expression", "{call .other data=\"$a +\" /}", true, "{call .other data=\"$a +\""},
-	{"error inside a css expression", "{css $a +, base}", true, "{css $a +,"},
-	{"error inside a quoted param value", "{call .other}{param key=\"p\" value=\"1 +\" /}{/call}", true, "{call .other}{param key=\"p\" value=\"1 +\""},
-	{"unterminated string", "{'never closed}", false, "{'never closed}"},
-	{"unterminated block comment", "/* never closed", false, "/* never closed"},
-	{"unterminated tag", "{if $a", false, "{if $a"},
+	{"double-brace tag closed by a single brace at the end of its line", "{{$a}", true, "{{$a}", 0},
+	{"double-brace self-closing tag closed by a single brace", "{{call .other /}", true, "{{call .other /}", 0},
+	{"text between {call} and its first {param}, lines after the {call} tag", "{call .other}\n\norphan\n\n{param p: 1 /}{/call}", true, "{call .other}\n\norphan\n\n{", 2},
+	{"text between two {param}s", "{call .other}{param p: 1 /}\norphan text\n\n\n{param p: 2 /}{/call}", true, "{call .other}{param p: 1 /}\norphan text\n\n\n{", 1},
+	{"illegal character in a tag", "{$a # 1}", true, "{$a #", 0},
+	{"stray closing brace in text", "oops } here", true, "oops }", 0},
+	{"unknown closing command", "{/foo}", true, "{/foo}", 0},
+	{"if without a condition", "{if}", true, "{if}", 0},
+	{"unexpected token in expression", "{$a + }", true, "{$a + }", 0},
+	{"bad number", "{12abc}", true, "{12abc", 0},
+	{"error inside a quoted attribute expression", "{call .other data=\"$a +\" /}", true, "{call .other data=\"$a +\"", 0},
+	{"error inside a css expression", "{css $a +, base}", true, "{css $a +,", 0},
+	{"error inside a quoted param value", "{call .other}{param key=\"p\" value=\"1 +\" /}{/call}", true, "{call .other}{param key=\"p\" value=\"1 +\"", 0},
+	{"unterminated string", "{'never closed}", false, "{'never closed}", 0},
+	{"unterminated block comment", "/* never closed", false, "/* never closed", 0},
+	{"unterminated tag", "{if $a", false, "{if $a", 0},
 }
 
 var posRe = regexp.MustCompile(`:(\d+):(\d+)`)
@@ -188,6 +195,41 @@ func compileFiles(dir string, paths, srcs []string) (c *compiled, err error, pan
 	return
 }
 
+// compileRegistry builds the bundle the way applications with their own loading do: parse each file, add
+// it to a template.Registry, run the passes. Before the passes, one more file is offered that defines a
+// template of the first file again: Add refuses it, and the application carries on with what it had.
+func compileRegistry(names, srcs []string) (c *compiled, err error, panicked interface{}) {
+	panicked = catch(func() {
+		reg := &template.Registry{}
+		for i := range names {
+			tree, e := parse.SoyFile(names[i], srcs[i])
+			if e != nil {
+				err = e
+				return
+			}
+			if e := reg.Add(tree); e != nil {
+				err = e
+				return
+			}
+		}
+		if len(srcs) > 0 {
+			if dup, e := parse.SoyFile("late-duplicate.soy", srcs[0]); e == nil {
+				if reg.Add(dup) == nil {
+					err = fmt.Errorf("a file that defines the templates of %s again was accepted", names[0])
+					return
+				}
+			}
+		}
+		if e := parsepasses.CheckDataRefs(*reg); e != nil {
+			err = e
+			return
+		}
+		parsepasses.ProcessMessages(*reg)
+		c = &compiled{soyhtml.NewTofu(reg), reg}
+	})
+	return
+}
+
 var c19rec *recorder
 
 func checkC19(c C19Case) Verdict {
@@ -201,7 +243,7 @@ func checkC19(c C19Case) Verdict {
 		for at := 0; at <= len(c.Lines); at++ { // the fault is inserted before body line 'at'
 			body := append(append(append([]string{}, c.Lines[:at]...), f.line), c.Lines[at:]...)
 			src, start := c.file(body)
-			if err := checkParseError(c.Name, src, start+at, f.single, f.name); err != nil {
+			if err := checkParseError(c.Name, src, start+at+f.at, f.single, f.name); err != nil {
 				return bad(true, "%v", err)
 			}
 			n++
@@ -209,7 +251,7 @@ func checkC19(c C19Case) Verdict {
 			// part of it that makes the fault certain (the fault line is then the last line of the input)
 			for _, last := range []string{f.line, f.crit} {
 				cut, _ := c.fileUpTo(append(append([]string{}, c.Lines[:at]...), last), false)
-				if err := checkParseError(c.Name, cut, start+at, f.single, f.name+" (input ends after "+fmt.Sprintf("%q", last)+")"); err != nil {
+				if err := checkParseError(c.Name, cut, start+at+f.at, f.single, f.name+" (input ends after "+fmt.Sprintf("%q", last)+")"); err != nil {
 					return bad(true, "%v", err)
 				}
 				n++
@@ -279,6 +321,10 @@ func checkC19(c C19Case) Verdict {
 				laterIteration = l
 			}
 		}
+		inMsg := false
+		for _, l := range loops {
+			inMsg = inMsg || l == "msg"
+		}
 		if laterIteration == "msg" {
 			laterIteration = "" // (no commands but print and call inside a message)
 		}
@@ -303,6 +349,17 @@ func checkC19(c C19Case) Verdict {
 			} else {
 				failing = []string{"{call .other}", "{param p: $a.nokey.deeper /}", "{/call}"}
 				alsoOK = 1
+				// the failing expression inside a quoted attribute, which the parser handles apart
+				switch at % 4 {
+				case 1:
+					failing, alsoOK = []string{"{call .other data=\"['p': $a.nokey.deeper]\" /}"}, -1
+				case 2:
+					failing = []string{"{call .other}", "{param key=\"p\" value=\"$a.nokey.deeper\" /}", "{/call}"}
+				case 3:
+					if !inMsg {
+						failing, alsoOK = []string{"{css $a.nokey.deeper, name}"}, -1
+					}
+				}
 			}
 		}
 		body := append(append(append([]string{}, c.Lines[:at]...), failing...), c.Lines[at:]...)
@@ -343,6 +400,8 @@ func checkC19(c C19Case) Verdict {
 			}
 			wantFile = paths[0]
 			cb, err, pn = compileFiles(dir, paths, srcs)
+		} else if distinct && hashCase(c)%5 == 1 {
+			cb, err, pn = compileRegistry(names, srcs)
 		} else {
 			cb, err, pn = compileBundle(names, srcs, nil)
 		}
@@ -413,7 +472,7 @@ func checkC19(c C19Case) Verdict {
 func genC19(t *rapid.T) C19Case {
 	return C19Case{
 		Kind:   rapid.SampledFrom([]string{"parse", "parse", "render"}).Draw(t, "kind"),
-		Name:   rapid.SampledFrom([]string{"main.soy", "dir/sub/file.soy", "my file.soy", "x", "/abs/path/t.soy"}).Draw(t, "name"),
+		Name:   rapid.SampledFrom([]string{"main.soy", "dir/sub/file.soy", "my file.soy", "x", "/abs/path/t.soy", "100%.soy", "f%20d.soy", "%s%d%v.soy"}).Draw(t, "name"),
 		Lines:  genC19Lines(t),
 		Fault:  rapid.IntRange(0, 39).Draw(t, "fault"),
 		CRLF:   rapid.IntRange(0, 4).Draw(t, "crlf") == 0,
